@@ -338,7 +338,8 @@ func (self *Compiler) compileExpr(node ast.AnalyzedExpression) {
 			opCodeGet := Opcode_GetVarImm
 			opCodeSet := Opcode_SetVarImm
 
-			if lhs.IsGlobal {
+			// A singleton lives in a global, like in `compileIdentExpression`.
+			if lhs.IsGlobal || lhs.IsSingleton {
 				opCodeGet = Opcode_GetGlobImm
 				opCodeSet = Opcode_SetGlobImm
 			}
